@@ -82,6 +82,14 @@ def build_driver(ctx):
         return (rc == 0 and drv.exists()), out[-2000:]
 
 
+def _okb_status():
+    """whether Extract/SvExtract.v's sitem_okb_sound (the generator's filter implies SvDefs.sitem_ok) checked at the last driver build"""
+    try:
+        return (SV / "okb_sound.status").read_text().strip()[:300]
+    except OSError:
+        return "unknown"
+
+
 def closer_order(repo=REPO):
     """The order of the three calls cmd/server/main.go makes after the signal arrived. -> (['prepare','net','server'], [missing])"""
     try:
@@ -783,6 +791,10 @@ def oracle_C06(run, images=None):
                     bad.append((k, "no_clear_on_disconnect: the end of session %r dropped listed holds %r at step %s" % (sid, gone, lab), None))
             else:
                 v0, v1 = _others_view(run, b0, sid), _others_view(run, b1, sid)
+                # a release hands the freed unit to the Lock call at the head of the queue, whichever session it belongs to: a hold of
+                # another session may BECOME live that way (its call was parked before the step), nothing else may change
+                blocked = set((c["name"], c["key"]) for t, c in acq.items() if c["op"] == "lock" and b0.thr.get(t) == ("B",))
+                v0 = [x if not ((x[0], x[1]) in blocked and not x[2] and y[2] and x[3:] == y[3:]) else y for x, y in zip(v0, v1)]
                 if v0 != v1:
                     bad.append((k, "the end of session %r touched a hold of another session at step %s: %r -> %r"
                                 % (sid, lab, [x for x in v0 if x not in v1], [x for x in v1 if x not in v0]), None))
@@ -880,11 +892,13 @@ def oracle_C09(run, images=None):
                 size = min(e[2] for e in ents)
                 if len(ents) <= size:
                     continue
-                zomb = [e for e in ents if not b.in_table(n, e[1])]
+                # goroutine states at the instant of the image: after the item, or (image taken inside store.Write) before it
+                sb = b if label == "post" else (run.block_at(b.k - 1) or b)
+                zomb = [e for e in ents if not sb.in_table(n, e[1])]
                 expl = []
                 for e in zomb:
-                    who = [t for t, st in b.thr.items() if st == ("P", "VSessRemove") and t in calls and calls[t]["op"] == "unl" and calls[t]["name"] == n and calls[t]["key"] == e[1]]
-                    who += [t for t, nk in cbs.items() if nk == (n, e[1]) and b.thr.get(t) == ("P", "VCbSessRemove")]
+                    who = [t for t, st in sb.thr.items() if st == ("P", "VSessRemove") and t in calls and calls[t]["op"] == "unl" and calls[t]["name"] == n and calls[t]["key"] == e[1]]
+                    who += [t for t, nk in cbs.items() if nk == (n, e[1]) and sb.thr.get(t) == ("P", "VCbSessRemove")]
                     if who:
                         expl.append((e, who))
                 text = "the state file a kill %s leaves lists %d holds of %r (size %d): %r" % (where, len(ents), n, size, ents)
@@ -929,8 +943,8 @@ def oracle_C11(run, images=None):
             continue
         if s in gone_before_flag and not run.noclear:
             continue
-        if any(c["op"] == "unl" and c["name"] == e[0] and c["key"] == e[1] for c in calls.values()):
-            continue
+        if any(c["op"] == "unl" and c["name"] == e[0] and c["key"] == e[1] and c["ok"] for c in calls.values()):
+            continue    # its own Unlock ended it (and said so)
         if (e[0], e[1]) in cbs.values():
             continue
         bad.append((final.k, "the hold (%r,%r) of session %r was live and listed when the signal arrived (item %d); the state file left by the shutdown does not list it (file: %r)"
@@ -1140,6 +1154,7 @@ def run_property(ctx, prop, tier=None, scenarios=None, procs=8):
         "hangs_or_fatal": len(failures), "yield_points_placed": len(ins["placed"]), "yield_points_missing": [m["id"] for m in missing],
         "sentinels_placed": ins["sentinels"], "closer_order": b.get("order"), "oracle": prop, "crash_images_distinct": n_images,
         "crash_images_not_load_tested": len(set(untested)),
+        "generator_filter_sitem_okb_sound": _okb_status(),
         "incomplete_schedules": sum(1 for r in compared.values() if not r.complete), "schedules_abandoned_after_repeated_hangs": abandoned,
         "wall_s": round(time.time() - t0, 1)})
     ctx.coverage["traces_validated_against_impl"] = ctx.coverage.get("traces_validated_against_impl", 0) + len(compared)
